@@ -5,6 +5,7 @@ from ..core import Acc, Viol, jhash
 from .. import pk, gen, cmp, corpus
 
 ID = 'C06'
+HORIZON_S = 1800   # one case = one input under all its transformations
 LEVEL = 'exploration'
 LEVEL_TEXT = ('Every input of the corpus (windows, cut-outs, docked pairs, clusters, whole chains; thorough: whole files) is '
               'relabelled by every transformation of a fixed list - order-preserving chain renamings onto upper-case, lower-case '
